@@ -29,7 +29,9 @@ from vlib import paths
 #           0: np.savetxt(header=header) as found - no line at all for an empty header
 #   dimsonly = 1: Model.__init__ takes the number of subsystems from len(dims) when num_qubits is not given
 #                 (fixes/C14-6.patch); 0: `... else N` as found - Processor(dims=[...]) raises NameError
-FLAGS = {"zl": 0, "ndmin": 0, "hold": 0, "hdr": 0, "dimsonly": 0, "cubic": "fun _ => .notAKnot", "read": False}
+#   cu    = 1: the step branch of _fill_coeff advances its index with the bounded `while` loop (catches up over several
+#              slots, fixes/C14-7.patch); 0: `if old_tlist[old_ind + 1] <= t + tol: old_ind += 1` as found
+FLAGS = {"zl": 0, "ndmin": 0, "hold": 0, "hdr": 0, "dimsonly": 0, "cu": 0, "cubic": "fun _ => .notAKnot", "read": False}
 
 _CUBIC_HEAD = ["sp = CubicSpline(old_tlist, old_coeffs)", "new_coeff = sp(full_tlist)"]
 _CUBIC_ZERO = ["new_coeff *= full_tlist <= old_tlist[-1]", "new_coeff *= full_tlist >= old_tlist[0]"]
@@ -119,7 +121,36 @@ def detect_flags():
     if hdr is None:
         raise TranslatorError("np.savetxt call of save_coeff not found")
     cubic, hold = _cubic_branch(_func(t_pulse, "_fill_coeff"))
-    return {"zl": zl, "ndmin": ndmin, "hold": hold, "hdr": hdr, "dimsonly": _dims_only(t_proc), "cubic": cubic, "read": True}
+    return {"zl": zl, "ndmin": ndmin, "hold": hold, "hdr": hdr, "dimsonly": _dims_only(t_proc), "cu": _advance_shape(t_pulse),
+            "cubic": cubic, "read": True}
+
+
+_ADV_TEST = "old_tlist[old_ind + 1] <= t + tol"
+_ADV_BODY = ["old_ind += 1"]
+
+
+def _advance_shape(t_pulse):
+    """the statement of the step loop of _fill_coeff that advances `old_ind`: `if <test>` (0) or the bounded
+    `while old_ind + 1 < len(old_tlist) and <test>` (1)"""
+    found = None
+    for node in ast.walk(_func(t_pulse, "_fill_coeff")):
+        if isinstance(node, (ast.If, ast.While)) and _ADV_TEST in ast.unparse(node.test):
+            body = [ast.unparse(x) for x in node.body]
+            if body != _ADV_BODY or node.orelse:
+                raise TranslatorError("advance step of _fill_coeff: body not recognised: " + "; ".join(body)[:200])
+            test = ast.unparse(node.test)
+            if isinstance(node, ast.If) and test == _ADV_TEST:
+                shape = 0
+            elif isinstance(node, ast.While) and test == "old_ind + 1 < len(old_tlist) and " + _ADV_TEST:
+                shape = 1
+            else:
+                raise TranslatorError("advance step of _fill_coeff not recognised: " + ast.unparse(node)[:200])
+            if found is not None:
+                raise TranslatorError("advance step of _fill_coeff found twice")
+            found = shape
+    if found is None:
+        raise TranslatorError("advance step of _fill_coeff not found")
+    return found
 
 
 _MODEL_INIT_OLD = ["self.num_qubits = num_qubits if num_qubits is not None else N",
@@ -161,7 +192,7 @@ def flags():
 def with_flags(line):
     f = flags()
     if line.startswith(("coeffs ", "fill ")):
-        return line + f" zl={f['zl']}"
+        return line + f" zl={f['zl']} cu={f['cu']}"
     if line.startswith("readshape "):
         return line + f" ndmin={f['ndmin']}"
     if line.startswith("header "):
@@ -1420,6 +1451,16 @@ class C14(PropertyCheck):
         "QipVerif.C14.save_read_labels_partial",
         "QipVerif.C14.save_read_labels_repaired",
         "QipVerif.C14.C14_counterexample_empty_header",
+        "QipVerif.C14.variants_w_false",
+        "QipVerif.C14.fill_w_eq_fill",
+        "QipVerif.C14.fill_eq_code_w",
+        "QipVerif.C14.fill_eq_step_w",
+        "QipVerif.C14.fill_eq_step_repaired_w",
+        "QipVerif.C14.fullCoeffs_eq_w",
+        "QipVerif.C14.fullCoeffs_eq_repaired_w",
+        "QipVerif.C14.run_analytically_is_time_ordered_w",
+        "QipVerif.C14.catchup_counterexample",
+        "QipVerif.C14.fill_catchup_near",
     ]
     technique = ("Lean 4 proof (induction over the merged grid with the slot invariant, exact rationals; Mathlib's matrix exponential, "
                  "its derivative and Gronwall's inequality for the time-ordered product) + model/implementation correspondence; the "
@@ -1445,6 +1486,13 @@ class C14(PropertyCheck):
                   "for np.savetxt(header=...) as it was before the fix not for a single pulse labelled '' saved without time column - "
                   "C14_counterexample_empty_header, confirmed on the code: KeyError); array shapes survive for every number of pulses and columns (save_read_shape_repaired: "
                   "np.loadtxt(ndmin=2), fix C14-3, applied; save_read_shape_counterexample describes the call before the fix).  "
+                  "Advance step of _fill_coeff (variant read from the tree: `if` as found / bounded `while`, fix C14-7): every "
+                  "resampling theorem and run_analytically_is_time_ordered hold for BOTH shapes under the same hypotheses "
+                  "(fill_w_eq_fill: under SepAll the loop moves at most once per merged point, *_w theorems); catchup_counterexample: a "
+                  "slot of 8e-11 < tol makes the loop as found read the later coefficients one slot off, the repaired loop returns the "
+                  "step function; fill_catchup_near: for the repaired loop WITHOUT any separation hypothesis (any strictly increasing "
+                  "channel grid, any strictly increasing T) the value at every T_k is the channel's step function at some time within "
+                  "tol of T_k.  "
                   "PARTIAL: that Qobj.expm computes the matrix exponential, run_state (sesolve/mesolve) and the text round trip "
                   "('%1.16f') are numerical; they are checked on every run by the correspondence (1-3 subsystems of dimension 2-3, 1-4 "
                   "channels, independent non-uniform grids ending at different times, ket and density matrix) against an independent "
@@ -1508,7 +1556,8 @@ class C14(PropertyCheck):
             open(gen, "w").write(text)
         ctx.log(f"variants of {paths.REPO}: step padding zeroes the last element of a full-length coefficient = {bool(FLAGS['zl'])}, "
                 f"np.loadtxt ndmin = {FLAGS['ndmin']}, save_coeff always writes the header line = {bool(FLAGS['hdr'])}, "
-                f"Processor(dims=...) without num_qubits supported = {bool(FLAGS['dimsonly'])}")
+                f"Processor(dims=...) without num_qubits supported = {bool(FLAGS['dimsonly'])}, "
+                f"_fill_coeff catches up over several slots = {bool(FLAGS['cu'])}")
         return [gen] if old != text else []
 
     # -----------------------------------------------------------------------------------------
@@ -1522,6 +1571,14 @@ class C14(PropertyCheck):
         grids = [gen_grid(rng) for _ in range(nch)]
         if tolstream:
             grids = perturb_tol(rng, [[x for x in g] for g in grids])
+            # a slot shorter than tol inside ONE channel (2^-40, 2^-34 < tol < 2^-30): the merged grid has no point for its
+            # end; this is where the two shapes of the advance step of _fill_coeff (if / while, fixes/C14-7) differ
+            for g in grids:
+                if len(g) >= 2 and rng.random() < 0.25:
+                    j = rng.randrange(1, len(g))
+                    x = g[j] + F(1, 2**rng.choice([40, 34, 30]))
+                    if x not in g and (j + 1 >= len(g) or x < g[j + 1]):
+                        g.insert(j + 1, x)
         chans = []
         for g in grids:
             r = rng.random()
@@ -1540,6 +1597,8 @@ class C14(PropertyCheck):
         inp = {"chans": [[c[0]] + ([bool(c[1]), None if c[2] is None else [fs(x) for x in c[2]]] if c[0] == "b" else
                                    ([[fs(x) for x in c[1]], [fs(x) for x in c[2]]] if c[0] == "a" else [])) for c in chans]}
         tags = ["stream=" + ("malformed" if malformed else "tolerance" if tolstream else "exact"), f"channels={nch}"]
+        if any(0 < b - a <= TOL for g in grids for a, b in zip(g[:-1], g[1:])):
+            tags.append("own slot shorter than tol")
         for c in chans:
             if c[0] == "b":
                 tags.append("bool channel: " + ("no tlist" if c[2] is None else "scalar tlist" if len(c[2]) == 1 else "own tlist"))
@@ -2203,9 +2262,10 @@ class C14(PropertyCheck):
             if f:
                 yield w, d
         tiny = []
-        if class_recorded():
-            # slots shorter than the resolution of the merged grid: excluded by hypothesis (SepAll), a recorded known finding;
-            # members of the class are evaluated and matched by finding_matches (KNOWN-FINDING), not skipped
+        if class_recorded() or flags()["cu"]:
+            # slots shorter than the resolution of the merged grid: excluded by hypothesis (SepAll).  Tree as found: a recorded
+            # known finding, members are evaluated and matched by finding_matches (KNOWN-FINDING).  Repaired tree
+            # (fixes/C14-7, `cu`): the slot only loses its own slice (fill_catchup_near), members must pass
             tiny = [TINY_STEP_WITNESS] + [{"kind": "evolution", "spec": make_tiny_step_spec(rng)} for _ in range(3)]
         for w in tiny + history_family()[::3] + [make_history(rng) for _ in range(8)] + constructor_witnesses():
             f, d = self.oracle_replay(ctx, w)
